@@ -6,6 +6,9 @@ Extra lines understood only by the driver (ignored by the harness):
 endian <0|1>                 byte order of the dump that `open` loads
 regdef <name> <off> <len>    one derived attribute below cpu.0 (name = "pid" or "reg.<x>")
 initblob <hex>               content of the PRSTATUS note of the dump
+xenrec <size>                the next `open` loads a Xen domain dump: `initblob` is its
+                             `.xen_prstatus` section, cut into records of <size> bytes, one
+                             virtual CPU each; the blob attribute is cpu.<n>.XEN_PRSTATUS
 ```
 `open <path>` starts a context with the registers declared since the previous
 `open`/`new`; its PRSTATUS content is set by the first `setblob cpu.0.PRSTATUS`.
@@ -31,16 +34,23 @@ def hex (bs : List Nat) : String :=
 
 structure St where
   ctx : Ctx := {}
-  cpu : Cpu := {}
-  hasCpu : Bool := false
+  cpus : List Cpu := []
+  blobKey : String := "PRSTATUS"
   pendBe : Bool := false
+  pendXen : Nat := 0
   pendRegs : List RegDef := []
   pendBlob : List Nat := []
 
-def regIndex (c : Cpu) (key : String) : Option Nat :=
-  -- key = "cpu.0.<name>"
-  let n := (key.drop 6).toString
-  c.regs.findIdx? (fun r => r.d.name == n)
+/-- "cpu.<n>.<name>" → (n, name) -/
+def cpuKey (key : String) : Option (Nat × String) :=
+  match key.splitOn "." with
+  | "cpu" :: n :: rest => if n.isNat ∧ rest ≠ [] then some (n.toNat!, ".".intercalate rest) else none
+  | _ => none
+
+def regIndex (cs : List Cpu) (n : Nat) (name : String) : Option Nat :=
+  match cs[n]? with
+  | some c => c.regs.findIdx? (fun r => r.d.name == name)
+  | none => none
 
 def insertSorted (a : String) : List String → List String
   | [] => [a]
@@ -58,13 +68,18 @@ def outPage (o : Out Page) (p : Page) : String × Page :=
 
 def step (s : St) (ws : List String) : String × St :=
   match ws with
-  | ["new"] => ("> new ok", { ctx := {}, cpu := {}, hasCpu := false })
+  | ["new"] => ("> new ok", { ctx := {}, cpus := [] })
   | ["endian", b] => ("", { s with pendBe := b == "1" })
   | ["initblob", h] => ("", { s with pendBlob := unhex h })
+  | ["xenrec", n] => ("", { s with pendXen := n.toNat! })
   | ["regdef", n, o, l] => ("", { s with pendRegs := s.pendRegs ++ [⟨n, o.toNat!, l.toNat!⟩] })
   | ["open", _] =>
-    ("> open ok", { ctx := {}, hasCpu := true,
-                    cpu := { be := s.pendBe, blob := s.pendBlob, regs := s.pendRegs.map (fun d => { d := d }) } })
+    if s.pendXen = 0 then
+      ("> open ok", { ctx := {}, blobKey := "PRSTATUS",
+                      cpus := [{ be := s.pendBe, blob := s.pendBlob, regs := s.pendRegs.map (fun d => { d := d }) }] })
+    else
+      ("> open ok", { ctx := {}, blobKey := "XEN_PRSTATUS",
+                      cpus := xenCpus s.pendBe s.pendXen s.pendRegs s.pendBlob })
   | ["setnum", "arch.page_size", v] =>
     let (o, p) := outPage (setSize pageFuel s.ctx.page v.toNat!) s.ctx.page
     (o, { s with ctx := { s.ctx with page := p } })
@@ -123,25 +138,54 @@ def step (s : St) (ws : List String) : String × St :=
           else none
         (treeOut es, s)
     else ("> bad-op", s)
-  | ["setblob", "cpu.0.PRSTATUS", h] => ("> set ok", { s with cpu := setBlob s.cpu (unhex h) })
-  | ["clear", "cpu.0.PRSTATUS"] => ("> clear ok", { s with cpu := clearBlob s.cpu })
-  | ["get", "cpu.0.PRSTATUS"] =>
-    (if s.cpu.blobSet then "> get ok blob:" ++ hex s.cpu.blob else "> get nodata -", s)
-  | ["poke", "cpu.0.PRSTATUS", off, h] =>
-    if !s.cpu.blobSet then ("> poke nodata", s) else
-    (match poke s.cpu off.toNat! (unhex h) with
-     | some c => ("> poke ok", { s with cpu := c })
-     | none => ("> poke range", s))
+  | ["setblob", key, h] =>
+    match cpuKey key with
+    | some (n, name) =>
+      if name ≠ s.blobKey then ("> set nokey", s) else
+      (match cpusUpdate s.cpus n (fun c => some (setBlob c (unhex h))) with
+       | some cs => ("> set ok", { s with cpus := cs })
+       | none => ("> set nokey", s))
+    | none => ("> bad-op", s)
+  | ["clear", key] =>
+    match cpuKey key with
+    | some (n, name) =>
+      if name ≠ s.blobKey then ("> clear nokey", s) else
+      (match cpusUpdate s.cpus n (fun c => some (clearBlob c)) with
+       | some cs => ("> clear ok", { s with cpus := cs })
+       | none => ("> clear nokey", s))
+    | none => ("> bad-op", s)
+  | ["poke", key, off, h] =>
+    match cpuKey key with
+    | some (n, name) =>
+      (match (if name = s.blobKey then s.cpus[n]? else none) with
+       | none => ("> poke nokey", s)
+       | some c =>
+         if !c.blobSet then ("> poke nodata", s) else
+         (match cpusUpdate s.cpus n (fun c => poke c off.toNat! (unhex h)) with
+          | some cs => ("> poke ok", { s with cpus := cs })
+          | none => ("> poke range", s)))
+    | none => ("> bad-op", s)
   | ["setnum", key, v] =>
-    match regIndex s.cpu key with
-    | some i => let (st, c) := setReg s.cpu i v.toNat!; ("> set " ++ showStatus st, { s with cpu := c })
+    match cpuKey key with
+    | some (n, name) =>
+      (match regIndex s.cpus n name with
+       | some i => let (st, cs) := cpusSetReg s.cpus n i v.toNat!; ("> set " ++ showStatus st, { s with cpus := cs })
+       | none => ("> set nokey", s))
     | none => ("> bad-op", s)
   | ["get", key] =>
-    match regIndex s.cpu key with
-    | some i =>
-      let (st, c, r) := getReg s.cpu i
-      ((match r with | some n => s!"> get {showStatus st} num:{n}" | none => s!"> get {showStatus st} -"),
-       { s with cpu := c })
+    match cpuKey key with
+    | some (n, name) =>
+      if name = s.blobKey then
+        (match s.cpus[n]? with
+         | some c => (if c.blobSet then "> get ok blob:" ++ hex c.blob else "> get nodata -", s)
+         | none => ("> get nokey -", s))
+      else
+      (match regIndex s.cpus n name with
+       | some i =>
+         let (st, cs, r) := cpusGetReg s.cpus n i
+         ((match r with | some n => s!"> get {showStatus st} num:{n}" | none => s!"> get {showStatus st} -"),
+          { s with cpus := cs })
+       | none => ("> get nokey -", s))
     | none => ("> bad-op", s)
   | _ => ("> bad-op", s)
 
@@ -151,8 +195,8 @@ partial def loop (h : IO.FS.Stream) (s : St) : IO Unit := do
   let ws := (line.trimAscii.toString.splitOn " ").filter (· ≠ "")
   let (out, s') := step s ws
   let s'' := match ws with
-    | ["open", _] => { s' with pendRegs := [], pendBe := false, pendBlob := [] }
-    | ["new"] => { s' with pendRegs := s.pendRegs, pendBe := s.pendBe, pendBlob := s.pendBlob }
+    | ["open", _] => { s' with pendRegs := [], pendBe := false, pendBlob := [], pendXen := 0 }
+    | ["new"] => { s' with pendRegs := s.pendRegs, pendBe := s.pendBe, pendBlob := s.pendBlob, pendXen := s.pendXen }
     | _ => s'
   if out ≠ "" then IO.println out
   loop h s''
